@@ -21,9 +21,13 @@
    a zero-length read succeeds at end of stream (as io.ReadFull does).
    Not modelled: Validate, New* (defaults), PrettyString, JSON, Print,
    signature creation/verification, error *messages* (one error class). *)
-From Coq Require Import String.
 From Fiano Require Import Base.Bytes.
 Open Scope Z_scope.
+
+(* field and structure names: the ASCII codes of the Go identifier (Coq's [string]
+   is avoided so that the extracted OCaml does not shadow OCaml's own string type) *)
+Definition fname := bytes.
+Definition name_eqb : fname -> fname -> bool := bytes_eqb.
 
 (* ---- count expressions (tag countValue): evaluated on the fields of the
    enclosing structure that were decoded before the blob ---- *)
@@ -50,7 +54,7 @@ Definition rhspec := list rhassign.
 (* ---- schema: the struct declaration with its tags ---- *)
 Inductive schema :=
 | SNil
-| SCons (name : string) (t : fty) (rest : schema)
+| SCons (name : fname) (t : fty) (rest : schema)
 with fty :=
 | FInt (w : nat)                          (* uintN / named basic type, little endian *)
 | FArr (n : nat)                          (* [n]byte *)
@@ -180,11 +184,11 @@ Fixpoint field_s (s : schema) (i : nat) : option fty :=
 Fixpoint nfields (s : schema) : nat :=
   match s with SCons _ _ rest => S (nfields rest) | SNil => O end.
 
-Fixpoint field_index (s : schema) (nm : string) : option nat :=
+Fixpoint field_index (s : schema) (nm : fname) : option nat :=
   match s with
   | SNil => None
   | SCons n _ rest =>
-    if String.eqb n nm then Some O
+    if name_eqb n nm then Some O
     else match field_index rest nm with Some k => Some (S k) | None => None end
   end.
 
@@ -358,6 +362,70 @@ Definition wf (d : sdesc) (v : value) : bool := wf_s (sd_schema d) [] v.
 Definition total_size (d : sdesc) (v : value) : Z := size_s (sd_schema d) v.
 Definition offset_of (d : sdesc) (v : value) (i : nat) : Z := offset_s (sd_schema d) v i.
 
+(* ---- side conditions on the rehash annotations (checked per structure by
+   vm_compute): every assignment targets an integer field of the stated width,
+   directly or inside a plain sub-structure (the StructInfo); no two assignments
+   hit the same field; a structure that rehashes has no countValue blob of its
+   own (so no count expression can read a rehashed field) ---- *)
+Fixpoint no_counted (s : schema) : bool :=
+  match s with
+  | SNil => true
+  | SCons _ (FBytesC _ _) _ => false
+  | SCons _ _ r => no_counted r
+  end.
+
+Fixpoint plain (s : schema) : bool :=
+  match s with
+  | SNil => true
+  | SCons _ (FInt _) r => plain r
+  | SCons _ (FArr _) r => plain r
+  | _ => false
+  end.
+
+Definition assign_ok (s : schema) (a : rhassign) : bool :=
+  match rh_path a with
+  | [i] => match field_s s i with Some (FInt w) => Nat.eqb w (rh_width a) | _ => false end
+  | [i; j] =>
+    match field_s s i with
+    | Some (FSub s' rh') =>
+      plain s' && (match rh' with [] => true | _ => false end) &&
+      match field_s s' j with Some (FInt w) => Nat.eqb w (rh_width a) | _ => false end
+    | _ => false
+    end
+  | _ => false
+  end.
+
+Definition pdisj (p q : list nat) : bool :=
+  match p, q with
+  | [i; j], [i'; j'] => negb (Nat.eqb i i') || negb (Nat.eqb j j')
+  | i :: _, i' :: _ => negb (Nat.eqb i i')
+  | _, _ => false
+  end.
+
+Fixpoint paths_disj (l : list (list nat)) : bool :=
+  match l with
+  | [] => true
+  | p :: r => forallb (pdisj p) r && paths_disj r
+  end.
+
+Definition rh_ok (s : schema) (rh : rhspec) : bool :=
+  (match rh with [] => true | _ => no_counted s end) &&
+  forallb (assign_ok s) rh && paths_disj (map rh_path rh).
+
+Fixpoint rh_ok_s (s : schema) : bool :=
+  match s with
+  | SNil => true
+  | SCons _ t r => rh_ok_f t && rh_ok_s r
+  end
+with rh_ok_f (t : fty) : bool :=
+  match t with
+  | FSub s rh => rh_ok s rh && rh_ok_s s
+  | FList _ s rh => rh_ok s rh && rh_ok_s s
+  | _ => true
+  end.
+
+Definition sdesc_ok (d : sdesc) : bool := rh_ok (sd_schema d) (sd_rh d) && rh_ok_s (sd_schema d).
+
 (* ================= manifest containers (element dispatch) =================
    Fields of a container are elements (structures that start with a StructInfo
    carrying an 8-byte ID): exactly one, at most one (pointer) or any number
@@ -366,7 +434,7 @@ Definition offset_of (d : sdesc) (v : value) (i : nat) : Z := offset_s (sd_schem
 Inductive mult := MOne | MOpt | MMany.
 
 Record celem := mkCelem {
-  ce_name : string;
+  ce_name : fname;
   ce_id : bytes;          (* the StructureID<Type> constant *)
   ce_mult : mult;
   ce_desc : sdesc         (* the element; field 0 is its StructInfo *)
